@@ -2,6 +2,7 @@ package main
 
 import (
 	"fmt"
+	"go/constant"
 	"go/token"
 	"go/types"
 	"strings"
@@ -572,7 +573,7 @@ func lookThrough(v ssa.Value) ssa.Value {
 // ---- error-return classification ---------------------------------------------
 
 func constInt(v ssa.Value) (int64, bool) {
-	if c, ok := v.(*ssa.Const); ok && c.Value != nil {
+	if c, ok := v.(*ssa.Const); ok && c.Value != nil && c.Value.Kind() == constant.Int {
 		return c.Int64(), true
 	}
 	return 0, false
